@@ -5,7 +5,7 @@
 From Coq Require Import List NArith ZArith QArith Qcanon Bool Lia Sorted.
 From ACB Require Import Base.Outcome Base.QcExtra Base.Arith Model.Tx Model.Ledger Model.Sfl
      Model.DeltaList Model.App Model.Summary Proofs.Tactics Proofs.C15Full Proofs.C04Sum
-     Proofs.RenderProps Proofs.C01Refine Proofs.SummaryProps Proofs.C10Scan Proofs.C10Sim Proofs.C10Cut Proofs.C10Roundtrip Proofs.C04Inv.
+     Proofs.RenderProps Proofs.C01Refine Proofs.SummaryProps Proofs.C10Scan Proofs.C10Sim Proofs.C10Cut Proofs.C10Roundtrip Proofs.C04Inv Proofs.AllAfter.
 Import ListNotations.
 Local Open Scope Qc_scope.
 
@@ -65,7 +65,9 @@ Proof.
     destruct (af_reg (ah_af h)); reflexivity. }
   rewrite Hsan. cbn [bind]. unfold delta_nonsell. cbn [t_act s_sh s_all s_acb].
   assert (H0s : 0 <= 0 + ah_n h) by qc_lra. assert (Has : 0 <= ps_all st + ah_n h) by qc_lra.
-  rewrite (gez_add_ok 0 (ah_n h) H0s). cbn [bind]. rewrite (gez_add_ok _ _ Has). cbn [bind].
+  rewrite (gez_add_ok 0 (ah_n h) H0s). cbn [bind].
+  rewrite (all_after_exact_as _ _ _ (ps_all st + ah_n h)) by ring. cbn [bind].
+  rewrite (gez_unwrap_nn _ _ Has). cbn [bind].
   unfold fresh in Hf. unfold ah_obs.
   destruct (ah_aps h) as [v|] eqn:Ev.
   - destruct Ha as [Hr Hv]. rewrite Hr. unfold local_value.
@@ -76,14 +78,18 @@ Proof.
     rewrite (gez_add_ok 0 _) by qc_lra. cbn [bind].
     eexists. eexists. split; [reflexivity|].
     unfold mk_delta. cbn [d_post s_sh s_all s_acb].
-    unfold set_latest. cbn [t_af]. rewrite Hf. cbn [a_add a_sub exact bind s_sh s_all s_acb is_none].
+    unfold set_latest. cbn [t_af]. rewrite Hf. cbn [s_sh].
+    rewrite (all_after_exact_as _ _ _ (0 + ah_n h + ps_all st - 0)) by ring.
+    cbn [a_add a_sub exact bind s_sh s_all s_acb is_none].
     rewrite Hr. cbn [Bool.eqb negb].
     assert (E2 : Qceqb (ps_all st + ah_n h) (0 + ah_n h + ps_all st - 0) = true) by (apply Qceqb_true; ring).
     rewrite E2. cbn [negb]. split; [reflexivity|]. cbn [ps_all option_map]. split; [|split; [ring|reflexivity]].
     f_equal; [ring|]. f_equal. ring.
   - rewrite Ha. eexists. eexists. split; [reflexivity|].
     unfold mk_delta. cbn [d_post s_sh s_all s_acb].
-    unfold set_latest. cbn [t_af]. rewrite Hf. cbn [a_add a_sub exact bind s_sh s_all s_acb is_none].
+    unfold set_latest. cbn [t_af]. rewrite Hf. cbn [s_sh].
+    rewrite (all_after_exact_as _ _ _ (0 + ah_n h + ps_all st - 0)) by ring.
+    cbn [a_add a_sub exact bind s_sh s_all s_acb is_none].
     rewrite Ha. cbn [Bool.eqb negb].
     assert (E2 : Qceqb (ps_all st + ah_n h) (0 + ah_n h + ps_all st - 0) = true) by (apply Qceqb_true; ring).
     rewrite E2. cbn [negb]. split; [reflexivity|]. cbn [ps_all option_map]. split; [|split; [ring|reflexivity]]. f_equal. ring.
@@ -244,7 +250,8 @@ Proof.
   cbn [bind sc_gain sc_sh sc_all sc_acb].
   assert (Eset : forall v, s_sh v = shx - 1 -> s_all v = ps_all st - 1 -> s_acb v <> None ->
             exists st', set_latest exact st (as_af x) v = Ok st' /\ ps_all st' = ps_all st - 1).
-  { intros v Ev1 Ev2 Ev3. unfold set_latest. cbn [a_add a_sub exact bind]. rewrite obs_fst, Hobs. cbn [fst].
+  { intros v Ev1 Ev2 Ev3. unfold set_latest. rewrite obs_fst, Hobs. cbn [fst].
+    rewrite (all_after_exact_as _ _ _ (s_sh v + ps_all st - shx)) by ring. cbn [bind].
     rewrite Hreg. destruct (s_acb v); [|contradiction]. cbn [is_none Bool.eqb negb].
     assert (E : Qceqb (s_all v) (s_sh v + ps_all st - shx) = true) by (apply Qceqb_true; rewrite Ev1, Ev2; ring).
     rewrite E. cbn [negb]. eexists. split; [reflexivity|]. cbn [ps_all]. exact Ev2. }
